@@ -59,6 +59,7 @@ SIGS = {
             'itemize': ([_O], None), 'enumerate': ([_O], None), 'tabular': ([_M], None),
             'array': ([_O, _M], None), 'equation': ([], 'math'), 'align*': ([], 'math'),
             'x': ([], None), 'center': ([], None), 'figure': ([_O], None),
+            'alignat': ([_M], 'math'), 'gather': ([], 'math'), 'multline*': ([], 'math'),
         },
         'specials': ['~', '&', '--', '---', '``', "''", '!`', '?`'],
         'verb': True,
@@ -75,10 +76,14 @@ SIGS = {
             # other parameterisations and slot orders
             'mom': [S('m'), S('o')], 'mrp': [S('r', '()'), S('m')], 'mdp': [S('d', '()')],
             'mtb': [S('t', '!'), S('m')], 'mvm': [S('m'), S('v')],
+            # arguments of one macro in different modes (none may leak into the next)
+            'mtp': [S('m', mode='text'), S('m')], 'mpm': [S('m'), S('m', mode='math')],
+            'mmpt': [S('m', mode='math'), S('m'), S('m', mode='text')],
         },
         'envs': {
             'eenv': ([S('o'), S('m')], None), 'emath': ([], 'math'), 'eplain': ([], None),
             'unkenv': ([], None), 'e2-x:y': ([], None), 'esd': ([S('s'), S('d', '()'), S('m')], None),
+            'ematharg': ([S('o'), S('m')], 'math'),     # arguments in the outer mode, body in math
         },
         'specials': ['~', '+', '++'],
         'verb': False,
@@ -95,12 +100,13 @@ SIGS['default-math'] = {
     'macros': {k: SIGS['default']['macros'][k] for k in
                ('text', 'textbf', 'mbox', 'ensuremath', 'mathrm', 'frac', 'sqrt', 'alpha', 'hat',
                 'item', '\\')},
-    'envs': {k: SIGS['default']['envs'][k] for k in ('equation', 'align*', 'x', 'itemize', 'array')},
+    'envs': {k: SIGS['default']['envs'][k] for k in ('equation', 'align*', 'x', 'itemize', 'array',
+                                                     'alignat', 'gather', 'multline*')},
     'specials': ['~', '&'], 'verb': False, 'mathy': True,
 }
 SIGS['every-math'] = {
     'macros': {k: SIGS['every']['macros'][k] for k in
-               ('mmath', 'mtext', 'mmand', 'mopt', 'mcombo', 'mnone', 'mr')},
+               ('mmath', 'mtext', 'mmand', 'mopt', 'mcombo', 'mnone', 'mr', 'mtp', 'mpm', 'mmpt')},
     'envs': dict(SIGS['every']['envs']),
     'specials': ['~'], 'verb': False, 'mathy': True,
 }
